@@ -35,7 +35,11 @@ class Interp(ExprMixin, StmtMixin, CallMixin):
             si.f32_bytes: self.i_f32_bytes, si.f64_bytes: self.i_f64_bytes, si.ghost: self.i_ghost,
             si.fresh_int: self.i_fresh_int, si.f32_of_bytes: self.i_f32_of_bytes, si.f64_of_bytes: self.i_f64_of_bytes,
         })
+        from . import models_threading
+        self.models.update(models_threading.build())
         self.intrinsics = {}
+        self.rely = []
+        self.top_frame = None
         self.callee_contracts = callee_contracts or {}
         self.codec_tables = codec_tables or {}
         self.lifted = {}
@@ -45,6 +49,14 @@ class Interp(ExprMixin, StmtMixin, CallMixin):
         self.old_heap = {}
         self.frame_rule = None
         self.dropped = set()
+
+    def spec_call(self, fn, args):
+        """Evaluate a contract function (requires / ensures / raises / invariant): specification context."""
+        self.spec_depth = getattr(self, "spec_depth", 0) + 1
+        try:
+            return self.call_value(fn, args, {})
+        finally:
+            self.spec_depth -= 1
 
     def note_dropped(self, what):
         self.dropped.add(what)
